@@ -71,3 +71,33 @@ Example c18_plain_send_refuted :
   sstep_plain_send 0 s SPush = s /\ sstep_plain_send 0 s (SDeq 0) = s /\ sstep_plain_send 0 s (SFin 0) = s /\
   sstep_plain_send 0 s SLateEnq = s /\ sstep_plain_send 0 s SLateLeave = s.
 Proof. vm_compute. repeat split. Qed.
+
+(* ---- the process level: SIGTERM makes the collector finish the datagrams it has taken in, flush and close ----------
+   Model/Shutdown.v: main.go's sequence after the signal -- Stop every receiver, in order, then close the output -- with
+   any number n of receivers, readers that go on taking datagrams in until their receiver is stopped, workers that hand
+   queued datagrams to the output, all scheduled arbitrarily.  Stop returns when its receiver's queue is drained
+   (c18_queued_decoded).  For EVERY n and EVERY schedule: no datagram that was taken in is handed to a closed output,
+   and once main has run to its end the output is closed, every queue is empty and exactly the datagrams taken in have
+   been written.  Tied to the code by the end-to-end runs of the cmd/goflow2 binary (props/c18.py: N records in, SIGTERM
+   -- also with two listeners and a backlog held back by an unread FIFO --, N records out, exit status 0). *)
+From GF Require Import Model.Shutdown Proofs.ShutdownP.
+Theorem c18_shutdown_loses_nothing : forall n es,
+  let s := run (start n (main_prog n)) es in
+  lost s = 0 /\ (prog s = [] -> outOpen s = false /\ written s = taken s /\ forall i, i < n -> rQueued (get (rs s) i) = 0).
+Proof. exact shutdown_loses_nothing. Qed.
+Print Assumptions c18_shutdown_loses_nothing.
+
+(* non-vacuity: three receivers, datagrams taken in before and after the signal, main runs to its end: 4 in, 4 out *)
+Example c18_shutdown_nonvacuous :
+  let s := run (start 3 (main_prog 3))
+               [EIntake 0; EIntake 2; EMain; EIntake 1; EIntake 0; EWork 0; EMain; EIntake 2; EMain; EWork 1; EMain; EMain;
+                EWork 2; EWork 2; EMain; EMain; EIntake 1] in
+  prog s = [] /\ taken s = 4 /\ written s = 4 /\ lost s = 0.
+Proof. vm_compute. repeat split. Qed.
+
+(* the protocol of seed C18-7 -- the receivers stopped through a closure over the loop variable, so that the LAST
+   receiver gets every Stop call -- refuted: two receivers, one datagram taken in by the first, the output closed
+   before its worker runs: the record is lost *)
+Example c18_closure_shutdown_refuted :
+  lost (run (start 2 (closure_prog 2)) [EIntake 0; EMain; EMain; EMain; EMain; EWork 0]) = 1.
+Proof. exact closure_prog_loses. Qed.
